@@ -2,7 +2,7 @@
 From Coq Require Import List NArith Bool Arith Lia.
 Import ListNotations.
 From V.C04 Require Import Model.
-From V.Stmt Require Import Model Run Proofs.
+From V.Stmt Require Import Model Spec Run Proofs Complete.
 
 Lemma fuel_enough ts : M (Program 0 []) (mkSt [] ts 0) < fuel_for ts.
 Proof.
@@ -34,3 +34,20 @@ Qed.
 (* the same for every mode and every state, with the measure as fuel *)
 Theorem parse_mode_total : forall m s, match parse (S (M m s)) m s with Fuel | Crash => False | _ => True end.
 Proof. intros m s. pose proof (parse_good (S (M m s)) m s (Nat.lt_succ_diag_r _)) as G. destruct (parse (S (M m s)) m s); cbn [good] in G; auto. Qed.
+
+(* an accepted program is complete: no missing operand, no missing clause *)
+Theorem accepted_is_complete : forall ts prog, parse_program ts = TopOk prog -> forallb cmp prog = true.
+Proof.
+  intros ts prog. unfold parse_program. destruct (has_other ts); [discriminate|].
+  pose proof (parse_complete (fuel_for ts) (Program 0 []) (mkSt [] ts 0) eq_refl) as C.
+  destruct (parse (fuel_for ts) (Program 0 []) (mkSt [] ts 0)) as [v s'| | | |]; try discriminate.
+  cbn [sat post] in C. destruct C as [l [-> Hl]]. intros H. injection H as <-. exact Hl.
+Qed.
+
+(* what "complete" excludes, on examples *)
+Example incomplete_binary : cmp (EBin OAdd (EAtom (AVar 0)) ENil) = false.
+Proof. reflexivity. Qed.
+Example incomplete_if : cmp (SIf ENil [] [] []) = false.
+Proof. reflexivity. Qed.
+Example complete_return_without_value : cmp (SReturn ENil) = true.
+Proof. reflexivity. Qed.
